@@ -2,6 +2,7 @@ package c06
 
 import (
 	"fmt"
+	"os"
 	"runtime/debug"
 	"strconv"
 	"strings"
@@ -28,31 +29,38 @@ function IDENT(x){ return x }
 function KEYRT(a){ return Object.keys({[a]:1})[0] }
 function JSONRT(a){ return JSON.parse(JSON.stringify(a)) }
 function EVAL(src){ return (0,eval)(src) }
-var BATNAMES=["a===b","b===a","Object.is(a,b)","Object.is(b,a)","a==b","b==a","!(a<b)","!(a>b)","!(b<a)","!(b>a)","a<=b","a>=b","!(a!==b)","!(a!=b)",
- "Map.get","Map.has","Set.has","Set.add keeps size 1","o[a]=1;o[b]===1","hasOwnProperty","b in o","one key","o[b]=2 keeps one key","o[a]===2 after o[b]=2","{[a]:1,[b]:2} has one key",
- "a.length===b.length","charCodeAt sweep","[a].indexOf(b)","[a].includes(b)","[a].lastIndexOf(b)","a.indexOf(b)===0","a.lastIndexOf(b)===0","a.startsWith(b)","a.endsWith(b)","a.includes(b)",
- "switch(a){case b}","(a+'x')===(b+'x')","('x'+a)===('x'+b)","JSON.stringify equal","localeCompare===0","typeof","codePointAt sweep","[...a] vs [...b]"];
-function BAT(a,b){
-  var r=[];
-  r.push(a===b, b===a, Object.is(a,b), Object.is(b,a), a==b, b==a, !(a<b), !(a>b), !(b<a), !(b>a), a<=b, a>=b, !(a!==b), !(a!=b));
-  var m=new Map([[a,1]]); r.push(m.get(b)===1, m.has(b));
-  var s=new Set([a]); r.push(s.has(b)); s.add(b); r.push(s.size===1);
-  var o=Object.create(null); o[a]=1; r.push(o[b]===1, Object.prototype.hasOwnProperty.call(o,b), b in o, Object.keys(o).length===1);
-  o[b]=2; r.push(Object.keys(o).length===1, o[a]===2);
-  var o2={[a]:1,[b]:2}; r.push(Object.getOwnPropertyNames(o2).length===1);
-  r.push(a.length===b.length);
-  var same=true, i; for (i=0;i<a.length;i++) if (a.charCodeAt(i)!==b.charCodeAt(i)) { same=false; break } r.push(same);
-  r.push([a].indexOf(b)===0, [a].includes(b), [a].lastIndexOf(b)===0);
-  r.push(a.indexOf(b)===0, a.lastIndexOf(b)===0, a.startsWith(b), a.endsWith(b), a.includes(b));
-  var sw; switch(a){ case b: sw=true; break; default: sw=false } r.push(sw);
-  r.push((a+"x")===(b+"x"), ("x"+a)===("x"+b));
-  r.push(JSON.stringify(a)===JSON.stringify(b));
-  r.push(a.localeCompare(b)===0);
-  r.push(typeof a===typeof b);
-  same=true; for (i=0;i<a.length;i++) if (a.codePointAt(i)!==b.codePointAt(i)) { same=false; break } r.push(same);
-  var ia=[...a], ib=[...b]; same=ia.length===ib.length; for (i=0;same && i<ia.length;i++) if (ia[i]!==ib[i]) same=false; r.push(same);
-  return r;
-}
+var SAME=function(f){ return function(a,b){ if (a.length!==b.length) return false; for (var i=0;i<a.length;i++) if (f(a,i)!==f(b,i)) return false; return true } };
+var BATG=[
+ [ ["a===b",function(a,b){return a===b}], ["b===a",function(a,b){return b===a}], ["Object.is(a,b)",function(a,b){return Object.is(a,b)}], ["Object.is(b,a)",function(a,b){return Object.is(b,a)}],
+   ["a==b",function(a,b){return a==b}], ["b==a",function(a,b){return b==a}], ["!(a<b)",function(a,b){return !(a<b)}], ["!(a>b)",function(a,b){return !(a>b)}], ["!(b<a)",function(a,b){return !(b<a)}],
+   ["!(b>a)",function(a,b){return !(b>a)}], ["a<=b",function(a,b){return a<=b}], ["a>=b",function(a,b){return a>=b}], ["!(a!==b)",function(a,b){return !(a!==b)}], ["!(a!=b)",function(a,b){return !(a!=b)}],
+   ["switch(a){case b}",function(a,b){ switch(a){ case b: return true; default: return false } }], ["typeof",function(a,b){return typeof a===typeof b}] ],
+ [ ["Map.get",function(a,b){return new Map([[a,1]]).get(b)===1}], ["Map.has",function(a,b){return new Map([[a,1]]).has(b)}], ["Set.has",function(a,b){return new Set([a]).has(b)}],
+   ["Set.add keeps size 1",function(a,b){var s=new Set([a]); s.add(b); return s.size===1}], ["Map.set overwrites",function(a,b){var m=new Map([[a,1]]); m.set(b,2); return m.size===1 && m.get(a)===2}],
+   ["Map.delete",function(a,b){var m=new Map([[a,1]]); return m.delete(b) && m.size===0}] ],
+ [ ["o[a]=1;o[b]===1",function(a,b){var o=Object.create(null); o[a]=1; return o[b]===1}], ["hasOwnProperty",function(a,b){var o=Object.create(null); o[a]=1; return Object.prototype.hasOwnProperty.call(o,b)}],
+   ["b in o",function(a,b){var o=Object.create(null); o[a]=1; return b in o}], ["o[b]=2 keeps one key",function(a,b){var o=Object.create(null); o[a]=1; o[b]=2; return Object.keys(o).length===1 && o[a]===2}],
+   ["{[a]:1,[b]:2} has one key",function(a,b){var o={[a]:1,[b]:2}; return Object.getOwnPropertyNames(o).length===1}], ["delete o[b]",function(a,b){var o=Object.create(null); o[a]=1; delete o[b]; return Object.keys(o).length===0}],
+   ["Object.keys(o)[0]===b",function(a,b){var o=Object.create(null); o[a]=1; return Object.keys(o)[0]===b}], ["Reflect.getOwnPropertyDescriptor",function(a,b){var o=Object.create(null); o[a]=1; return Reflect.getOwnPropertyDescriptor(o,b)!==undefined}] ],
+ [ ["a.length===b.length",function(a,b){return a.length===b.length}], ["charCodeAt sweep",SAME(function(s,i){return s.charCodeAt(i)})], ["codePointAt sweep",SAME(function(s,i){return s.codePointAt(i)})],
+   ["s[i] sweep",SAME(function(s,i){return s[i]})], ["[...a] vs [...b]",function(a,b){var x=[...a], y=[...b]; if (x.length!==y.length) return false; for (var i=0;i<x.length;i++) if (x[i]!==y[i]) return false; return true}],
+   ["charAt sweep",SAME(function(s,i){return s.charAt(i)})] ],
+ [ ["[a].indexOf(b)",function(a,b){return [a].indexOf(b)===0}], ["[a].includes(b)",function(a,b){return [a].includes(b)}], ["[a].lastIndexOf(b)",function(a,b){return [a].lastIndexOf(b)===0}],
+   ["a.indexOf(b)===0",function(a,b){return a.indexOf(b)===0}], ["a.lastIndexOf(b)===0",function(a,b){return a.lastIndexOf(b)===0}], ["a.startsWith(b)",function(a,b){return a.startsWith(b)}],
+   ["a.endsWith(b)",function(a,b){return a.endsWith(b)}], ["a.includes(b)",function(a,b){return a.includes(b)}], ["a.split(b) is ['','']",function(a,b){ if (b.length===0) return true; var p=a.split(b); return p.length===2 && p[0]==="" && p[1]===""}],
+   ["a.replace(b,'') is ''",function(a,b){return a.replace(b,"")===""}] ],
+ [ ["(a+'x')===(b+'x')",function(a,b){return (a+"x")===(b+"x")}], ["('x'+a)===('x'+b)",function(a,b){return ("x"+a)===("x"+b)}], ["JSON.stringify equal",function(a,b){return JSON.stringify(a)===JSON.stringify(b)}],
+   ["localeCompare===0",function(a,b){return a.localeCompare(b)===0}], ["a.slice(1)===b.slice(1)",function(a,b){return a.slice(1)===b.slice(1)}], ["(a+b)===(b+a)",function(a,b){return (a+b)===(b+a)}],
+   ["join equal",function(a,b){return [a,"|"].join("")===[b,"|"].join("")}] ]
+];
+function BATNAMES(g){ return BATG[g].map(function(t){ return t[0] }) }
+function BAT(g,k,a,b){ var ts=BATG[g], r=[]; for (var i=0;i<ts.length;i++){ var j=(i+k)%ts.length; r[j]=ts[j][1](a,b) } return r }
+function NEQ(k,a,b){
+  var T=[function(){return a===b}, function(){return b===a}, function(){return a==b}, function(){return Object.is(a,b)}, function(){return new Map([[a,1]]).has(b)}, function(){return new Set([a]).has(b)},
+         function(){var o=Object.create(null); o[a]=1; return b in o}, function(){return [a].includes(b)}, function(){return [a].indexOf(b)===0}, function(){ switch(a){ case b: return true } return false },
+         function(){var o={[a]:1,[b]:2}; return Object.keys(o).length===1}, function(){return a<b}, function(){return a>b}, function(){return a<=b}, function(){return a>=b}, function(){return b<a}, function(){return b>a}];
+  var r=[]; for (var i=0;i<T.length;i++){ var j=(i+k)%T.length; r[j]=T[j]() } return r }
+var NEQNAMES=["a===b","b===a","a==b","Object.is(a,b)","Map.has","Set.has","b in o","[a].includes(b)","[a].indexOf(b)","switch","{[a],[b]} one key","a<b","a>b","a<=b","a>=b","b<a","b>a"];
 function ORD(a,b){ return [a<b, a>b, a===b, a<=b, a>=b, a==b] }
 `
 
@@ -75,6 +83,28 @@ type violation struct {
 
 type abort struct{ v *violation }
 
+// Former known findings (all fixed in /repo, witnesses pinned): C06-replaceall-empty-hang (c509d8c: "é".replaceAll("", x)
+// never returned), C06-builder-normal-form (c9268e0: StringBuilder.WriteSubstring left an ASCII-only string in UTF-16
+// storage), C06-trim-surrogates (44e0176) and C06-case-normalize-surrogates (a774f4c): unpaired surrogates became U+FFFD.
+// While they were listed the random workload left out exactly their neighbourhood (replaceAll with an empty pattern on a
+// non-ASCII subject; the surrogate pass-through relations of case mapping / normalize; the model comparison of trim* on
+// operands with unpaired surrogates; builder results not in normal form). The switches are kept (false = no exclusion) in
+// case a finding has to be re-listed.
+const (
+	knownReplaceAllEmptyHang = false
+	knownSurrogateLoss       = false
+	knownBuilderNormalForm   = false
+)
+
+func isASCII(u S) bool {
+	for _, c := range u {
+		if c >= 0x80 {
+			return false
+		}
+	}
+	return true
+}
+
 // prune ends a case early (held so far): a value grew beyond the size the quantifier covers.
 type prune struct{}
 
@@ -96,6 +126,7 @@ type env struct {
 	pairs      int
 	nontrivial bool
 	quiet      bool // only compute values (used by the minimiser)
+	noExclude  bool // pinned witnesses: known-finding exclusions off
 }
 
 func newEnv(st *core.Stats, rng *core.Rng) *env {
@@ -284,7 +315,7 @@ func (e *env) evalLeaf(n *node) (goja.String, S) {
 			v = e.snippet(n, fmt.Sprintf("(%d).toString(%d)", n.I, n.J))
 			ref = strref.ASCII(strconv.FormatInt(int64(n.I), n.J))
 		case 4:
-			v = e.r.ToValue(n.I).ToString()
+			v = e.snippet(n, "String(a)", e.r.ToValue(n.I))
 		default:
 			v = e.snippet(n, fmt.Sprintf("(%d).toFixed(0)", n.I))
 		}
@@ -301,15 +332,22 @@ func (e *env) eval(n *node) val {
 	if spec == nil {
 		v, ref := e.evalLeaf(n)
 		e.st.Inc("op:" + n.Op)
-		got := unitsOf(v)
+		family := "leaf-" + n.Op
 		if e.quiet {
-			return val{v: v, units: got, family: "leaf-" + n.Op}
+			return val{v: v, units: unitsOf(v), family: family}
 		}
+		e.st.SetAdd("value_reprs", goja.VerifRepr(v))
+		if goja.VerifRepr(v) == "imported-unscanned" {
+			// a lazily scanned import: let the batteries meet it unscanned (a fresh one per group), then read it
+			e.observe(n, family, func() goja.String { x, _ := e.evalLeaf(n); return x }, ref)
+		}
+		got := unitsOf(v)
 		if !strref.Equal(got, ref) {
 			e.fail(n, "model", "leaf", "%s: strref expects %s, goja produced %s", n.render(), render(ref), render(got))
 		}
-		out := val{v: v, units: got, family: "leaf-" + n.Op}
-		e.observe(n, out)
+		out := val{v: v, units: got, family: family}
+		e.observe(n, family, fixed(v), got)
+		e.vals = append(e.vals, out)
 		return out
 	}
 	kids := make([]val, len(n.Kids))
@@ -338,19 +376,49 @@ func (e *env) eval(n *node) val {
 	if bound > 40*maxUnits {
 		panic(prune{})
 	}
+	if knownReplaceAllEmptyHang && !e.noExclude && len(ku) == 3 && len(ku[1]) == 0 && !isASCII(ku[0]) && (n.Op == "replaceAll" || n.Op == "replaceFn" && n.F%2 == 1) {
+		e.st.Inc("excluded:replaceAll-empty-pattern-on-non-ascii")
+		panic(prune{})
+	}
 	e.st.Inc("op:" + n.Op)
 	v := e.apply(n, spec, kids)
+	if e.quiet {
+		return val{v: v, units: unitsOf(v), family: spec.family}
+	}
+	e.st.SetAdd("value_reprs", goja.VerifRepr(v))
+	var ref S
+	modelled := false
+	switch {
+	case spec.unmodelled:
+	case knownSurrogateLoss && !e.noExclude && n.Op == "trim" && !strref.IsWellFormed(ku[0]):
+		e.st.Inc("excluded:trim-of-unpaired-surrogates")
+	default:
+		if ref, modelled = spec.model(n, ku); !modelled {
+			e.st.Inc("model_domain_skipped:" + spec.name)
+		}
+	}
+	if modelled && len(ref) > maxUnits {
+		panic(prune{})
+	}
+	if modelled && goja.VerifRepr(v) == "imported-unscanned" {
+		// the result is a lazily scanned import (Concat of two of them, JSON.stringify): batteries first, on the unread value
+		e.st.Inc("unscanned_result_observed_before_first_read:" + spec.family)
+		e.observe(n, spec.family, fixed(v), ref)
+	}
 	if v.Length() > maxUnits {
 		panic(prune{})
 	}
 	got := unitsOf(v)
-	out := val{v: v, units: got, family: spec.family}
-	if e.quiet {
-		return out
+	if knownBuilderNormalForm && !e.noExclude && n.Op == "builder" {
+		if ok, _ := goja.VerifStringWellFormed(v); !ok {
+			e.st.Inc("excluded:builder-result-not-in-normal-form")
+			v = goja.StringFromUTF16(got)
+		}
 	}
+	out := val{v: v, units: got, family: spec.family}
 	if spec.unmodelled {
 		e.relations(n, spec, kids[0], out)
-	} else if ref, ok := spec.model(n, ku); ok {
+	} else if modelled {
 		e.st.Inc("model_compared:" + spec.family)
 		if !strref.Equal(got, ref) {
 			ins := make([]string, len(ku))
@@ -359,10 +427,9 @@ func (e *env) eval(n *node) val {
 			}
 			e.fail(n, "model", spec.name, "%s on operands [%s]: strref expects %s, goja produced %s", n.render(), strings.Join(ins, ", "), render(ref), render(got))
 		}
-	} else {
-		e.st.Inc("model_domain_skipped:" + spec.name)
 	}
-	e.observe(n, out)
+	e.observe(n, spec.family, fixed(v), got)
+	e.vals = append(e.vals, out)
 	return out
 }
 
@@ -427,18 +494,22 @@ func (e *env) apply(n *node, spec *opSpec, kids []val) goja.String {
 // ---------------------------------------------------------------------------------------------------------------
 // twins
 
+// twin is a constructor of a string with given code units. mk returns a fresh instance every time it matters
+// (lazily scanned imported strings must reach each group of observations unscanned).
 type twin struct {
-	v      goja.String
 	family string
+	mk     func() goja.String
 }
+
+func fixed(s goja.String) func() goja.String { return func() goja.String { return s } }
 
 // twins manufactures representation twins of the unit sequence u through other constructors.
 func (e *env) twins(n *node, u S) []twin {
 	var ts []twin
 	add := func(fam string, v goja.Value) {
-		s := e.str(n, "twin "+fam, v)
-		ts = append(ts, twin{s, fam})
+		ts = append(ts, twin{fam, fixed(e.str(n, "twin "+fam, v))})
 	}
+	addMk := func(fam string, mk func() goja.String) { ts = append(ts, twin{fam, mk}) }
 	add("fromCharCode", e.global(n, "FCC", e.numArr(u)))
 	add("StringFromUTF16", goja.StringFromUTF16(u))
 	h := 0
@@ -453,20 +524,25 @@ func (e *env) twins(n *node, u S) []twin {
 	} else {
 		add("slice-of-longer", e.global(n, "SUBSTR", long, e.r.ToValue(len(pre)), e.r.ToValue(len(pre)+len(u))))
 	}
-	var sub goja.String
-	o := gj.Call(func() (goja.Value, error) { sub = long.Substring(len(pre), len(pre)+len(u)); return nil, nil })
-	e.judge(n, "String.Substring", o)
-	add("go-substring-of-longer", sub)
+	goCall := func(what string, f func() goja.String) goja.String {
+		var res goja.String
+		o := gj.Call(func() (goja.Value, error) { res = f(); return nil, nil })
+		e.judge(n, what, o)
+		if res == nil {
+			e.fail(n, "not-a-string", "", "%s returned nil", what)
+		}
+		return res
+	}
+	add("go-substring-of-longer", goCall("String.Substring", func() goja.String { return long.Substring(len(pre), len(pre)+len(u)) }))
 	// literal through the parser
 	add("eval-literal", e.global(n, "EVAL", e.r.ToValue(`"`+jsLit(u)+`"`)))
 	add("property-key-roundtrip", e.global(n, "KEYRT", goja.StringFromUTF16(u)))
 	// builder: halves written separately, after a unicode hint
 	{
-		var sb goja.StringBuilder
-		var res goja.String
 		whole := goja.StringFromUTF16(u)
 		mode := e.rng.Intn(4)
-		o := gj.Call(func() (goja.Value, error) {
+		res := goCall("StringBuilder", func() goja.String {
+			var sb goja.StringBuilder
 			switch mode {
 			case 0:
 				sb.WriteString(goja.StringFromUTF16(u[:h]))
@@ -483,26 +559,27 @@ func (e *env) twins(n *node, u S) []twin {
 					sb.WriteSubstring(whole, i, i+1)
 				}
 			}
-			res = sb.String()
-			return nil, nil
+			return sb.String()
 		})
-		e.judge(n, "StringBuilder", o)
-		add(fmt.Sprintf("builder-%d", mode), res)
+		if ok, _ := goja.VerifStringWellFormed(res); ok || !knownBuilderNormalForm || e.noExclude {
+			add(fmt.Sprintf("builder-%d", mode), res)
+		} else {
+			e.st.Inc("excluded:builder-result-not-in-normal-form")
+		}
 	}
 	if strref.IsWellFormed(u) {
 		g := strref.ToUTF8(u)
-		add("ToValue-utf8", e.r.ToValue(g))
+		// fresh on every use: longer than 16 bytes it is a lazily scanned importedString
+		addMk("ToValue-utf8", func() goja.String { return e.r.ToValue(g).(goja.String) })
 		sc := e.r.ToValue(g).(goja.String)
 		sc.Length()
 		add("ToValue-utf8-scanned", sc)
 		// an imported string longer than 16 bytes whatever the content: pad and cut back on the Go side
-		padded := e.r.ToValue(g + ".................").(goja.String)
-		var cut goja.String
-		o := gj.Call(func() (goja.Value, error) { cut = padded.Substring(0, len(u)); return nil, nil })
-		e.judge(n, "imported.Substring", o)
-		add("imported-long-substring", cut)
-		// Concat of two unscanned imported strings stays imported
-		if len(g) > 0 {
+		add("imported-long-substring", goCall("imported.Substring", func() goja.String {
+			return e.r.ToValue(g+".................").(goja.String).Substring(0, len(u))
+		}))
+		// Concat of two unscanned imported strings stays an unscanned imported string
+		if len(g) > 34 {
 			cutAt := 0
 			for i := range g { // a rune boundary near the middle
 				if i >= len(g)/2 {
@@ -510,14 +587,17 @@ func (e *env) twins(n *node, u S) []twin {
 					break
 				}
 			}
-			a := e.r.ToValue(g[:cutAt] + "").(goja.String)
-			b := e.r.ToValue(g[cutAt:] + "").(goja.String)
-			var cc goja.String
-			o := gj.Call(func() (goja.Value, error) { cc = a.Concat(b); return nil, nil })
-			e.judge(n, "imported.Concat", o)
-			add("imported-concat", cc)
+			addMk("imported-concat", func() goja.String {
+				return goCall("imported.Concat", func() goja.String {
+					return e.r.ToValue(g[:cutAt] + "").(goja.String).Concat(e.r.ToValue(g[cutAt:] + "").(goja.String))
+				})
+			})
 		}
 		add("json-roundtrip", e.global(n, "JSONRT", goja.StringFromUTF16(u)))
+		addMk("json-stringify-parse-go", func() goja.String {
+			// JSON.stringify of a non-ASCII string yields an importedString; parse it back on demand
+			return e.str(n, "JSONRT", e.global(n, "JSONRT", e.r.ToValue(g)))
+		})
 		var sb goja.StringBuilder
 		sb.WriteUTF8String(g)
 		add("builder-utf8", sb.String())
@@ -528,125 +608,237 @@ func (e *env) twins(n *node, u S) []twin {
 // ---------------------------------------------------------------------------------------------------------------
 // battery
 
-var batNames []string
+var batNames [][]string
 
-func (e *env) batteryNames() []string {
+func (e *env) batteryNames() [][]string {
 	if batNames == nil {
-		arr := e.r.Get("BATNAMES").(*goja.Object)
-		n := int(arr.Get("length").ToInteger())
-		for i := 0; i < n; i++ {
-			batNames = append(batNames, arr.Get(strconv.Itoa(i)).String())
+		for g := 0; g < 6; g++ {
+			arr := e.global(nil, "BATNAMES", e.r.ToValue(g)).(*goja.Object)
+			n := int(arr.Get("length").ToInteger())
+			var names []string
+			for i := 0; i < n; i++ {
+				names = append(names, arr.Get(strconv.Itoa(i)).String())
+			}
+			batNames = append(batNames, names)
 		}
 	}
 	return batNames
 }
 
-// battery: a and b hold the same code units u; nothing may tell them apart.
-func (e *env) battery(n *node, a, b goja.String, fa, fb string, u S) {
-	ra, rb := goja.VerifRepr(a), goja.VerifRepr(b)
-	e.pairs++
-	e.st.Inc("pairs_total")
-	e.st.SetAdd("repr_pairs_coarse", coarse(ra)+" x "+coarse(rb))
-	e.st.SetAdd("repr_pairs_fine", ra+" x "+rb)
-	e.st.SetAdd("family_pairs", fa+" x "+fb)
-	if ra != rb || fa != fb {
-		e.nontrivial = true
-	}
-	desc := func() string {
-		return fmt.Sprintf("a = %s [%s, repr %s], b = [%s, repr %s], same code units %s", n.render(), fa, ra, fb, rb, render(u))
-	}
-	// script side
-	res := e.global(n, "BAT", a, b)
-	ro := res.(*goja.Object)
-	names := e.batteryNames()
-	cnt := int(ro.Get("length").ToInteger())
-	if cnt != len(names) {
-		panic("c06: battery size mismatch")
-	}
-	for i := 0; i < cnt; i++ {
-		if !ro.Get(strconv.Itoa(i)).ToBoolean() {
-			e.fail(n, "battery", names[i], "strings with equal code units are distinguishable by %s: %s", names[i], desc())
-		}
-	}
-	e.st.Count("battery_checks", int64(cnt))
-	// Go side
-	var problems []string
-	o := gj.Call(func() (goja.Value, error) {
-		chk := func(name string, ok bool) {
-			if !ok {
-				problems = append(problems, name)
-			}
-		}
-		chk("a.SameAs(b)", a.SameAs(b))
-		chk("b.SameAs(a)", b.SameAs(a))
-		chk("a.StrictEquals(b)", a.StrictEquals(b))
-		chk("b.StrictEquals(a)", b.StrictEquals(a))
-		chk("a.Equals(b)", a.Equals(b))
-		chk("b.Equals(a)", b.Equals(a))
-		chk("a.CompareTo(b)==0", a.CompareTo(b) == 0)
-		chk("b.CompareTo(a)==0", b.CompareTo(a) == 0)
-		chk("Length", a.Length() == b.Length() && a.Length() == len(u))
-		if a.Length() == b.Length() {
-			for i := 0; i < a.Length(); i++ {
-				if a.CharAt(i) != b.CharAt(i) {
-					chk("CharAt sweep", false)
-					break
+// the Go-side observations, in groups (each group gets fresh instances of both strings)
+var goGroups = [][]struct {
+	name string
+	f    func(a, b goja.String, u S) bool
+}{
+	{{"a.SameAs(b)", func(a, b goja.String, u S) bool { return a.SameAs(b) }}, {"b.SameAs(a)", func(a, b goja.String, u S) bool { return b.SameAs(a) }},
+		{"a.StrictEquals(b)", func(a, b goja.String, u S) bool { return a.StrictEquals(b) }}, {"b.StrictEquals(a)", func(a, b goja.String, u S) bool { return b.StrictEquals(a) }},
+		{"a.Equals(b)", func(a, b goja.String, u S) bool { return a.Equals(b) }}, {"b.Equals(a)", func(a, b goja.String, u S) bool { return b.Equals(a) }}},
+	{{"a.CompareTo(b)==0", func(a, b goja.String, u S) bool { return a.CompareTo(b) == 0 }}, {"b.CompareTo(a)==0", func(a, b goja.String, u S) bool { return b.CompareTo(a) == 0 }}},
+	{{"Length", func(a, b goja.String, u S) bool { return a.Length() == len(u) && b.Length() == len(u) }},
+		{"CharAt sweep", func(a, b goja.String, u S) bool {
+			for i := range u {
+				if a.CharAt(i) != u[i] || b.CharAt(i) != u[i] {
+					return false
 				}
 			}
+			return true
+		}},
+		{"Substring(0,n) SameAs", func(a, b goja.String, u S) bool { return a.Substring(0, len(u)).SameAs(b.Substring(0, len(u))) }},
+		{"Concat SameAs", func(a, b goja.String, u S) bool { return a.Concat(b).SameAs(b.Concat(a)) }}},
+	{{"a.Export()==UTF-8 mapping of the code units", func(a, b goja.String, u S) bool { s, ok := a.Export().(string); return ok && s == strref.ToUTF8(u) }},
+		{"b.Export()==UTF-8 mapping of the code units", func(a, b goja.String, u S) bool { s, ok := b.Export().(string); return ok && s == strref.ToUTF8(u) }},
+		{"a.String()==b.String()", func(a, b goja.String, u S) bool { return a.String() == b.String() }},
+		{"ExportType", func(a, b goja.String, u S) bool { return a.ExportType() == b.ExportType() }}},
+	{{"ToString().SameAs", func(a, b goja.String, u S) bool { return a.ToString().SameAs(b.ToString()) }},
+		{"ToBoolean", func(a, b goja.String, u S) bool { return a.ToBoolean() == b.ToBoolean() }},
+		{"ToNumber same", func(a, b goja.String, u S) bool { return a.ToNumber().SameAs(b.ToNumber()) }},
+		{"ToInteger same", func(a, b goja.String, u S) bool { return a.ToInteger() == b.ToInteger() }}},
+}
+
+// battery: a and b produce strings holding the same code units u; nothing may tell them apart. Every group of
+// observations gets fresh instances (so that lazily scanned strings are met unscanned by each group) and starts at a
+// PRNG-chosen item.
+func (e *env) battery(n *node, a, b twin, u S) {
+	e.pairs++
+	e.st.Inc("pairs_total")
+	e.st.SetAdd("family_pairs", a.family+" x "+b.family)
+	names := e.batteryNames()
+	note := func(x, y goja.String) (string, string) {
+		ra, rb := goja.VerifRepr(x), goja.VerifRepr(y)
+		e.st.SetAdd("repr_pairs_coarse", coarse(ra)+" x "+coarse(rb))
+		e.st.SetAdd("repr_pairs_fine", ra+" x "+rb)
+		if ra != rb || a.family != b.family {
+			e.nontrivial = true
 		}
-		ea, oka := a.Export().(string)
-		eb, okb := b.Export().(string)
-		chk("Export() is a string", oka && okb)
-		chk("a.Export()==b.Export()", ea == eb)
-		want := strref.ToUTF8(u)
-		chk("a.Export()==UTF-8 mapping of the code units", ea == want)
-		chk("b.Export()==UTF-8 mapping of the code units", eb == want)
-		chk("a.String()==b.String()", a.String() == b.String())
-		chk("ExportType", a.ExportType() == b.ExportType())
-		chk("ToString().SameAs", a.ToString().SameAs(b.ToString()))
-		chk("ToBoolean", a.ToBoolean() == b.ToBoolean())
-		chk("ToNumber same", a.ToNumber().SameAs(b.ToNumber()))
-		return nil, nil
-	})
-	e.judge(n, "Go-side battery", o)
-	e.st.Count("battery_checks", 19)
-	if len(problems) > 0 {
-		e.fail(n, "battery-go", problems[0], "strings with equal code units are distinguishable from Go by %s: %s (Export a=%q b=%q, want %q)", strings.Join(problems, ", "), desc(), a.Export(), b.Export(), strref.ToUTF8(u))
+		return ra, rb
+	}
+	desc := func(ra, rb string) string {
+		return fmt.Sprintf("a = %s [%s, repr %s], b = [%s, repr %s], same code units %s", n.render(), a.family, ra, b.family, rb, render(u))
+	}
+	for g := range names {
+		x, y := a.mk(), b.mk()
+		ra, rb := note(x, y)
+		k := e.rng.Intn(len(names[g]))
+		ro := e.global(n, "BAT", e.r.ToValue(g), e.r.ToValue(k), x, y).(*goja.Object)
+		for i := range names[g] {
+			if !ro.Get(strconv.Itoa(i)).ToBoolean() {
+				e.st.Inc("first_item_of_failing_group:" + names[g][k])
+				e.fail(n, "battery", names[g][i], "strings with equal code units are distinguishable by %s: %s", names[g][i], desc(ra, rb))
+			}
+		}
+		e.st.Count("battery_checks", int64(len(names[g])))
+	}
+	for _, grp := range goGroups {
+		x, y := a.mk(), b.mk()
+		ra, rb := note(x, y)
+		k := e.rng.Intn(len(grp))
+		var failed string
+		o := gj.Call(func() (goja.Value, error) {
+			for i := range grp {
+				it := grp[(i+k)%len(grp)]
+				if !it.f(x, y, u) && failed == "" {
+					failed = it.name
+				}
+			}
+			return nil, nil
+		})
+		e.judge(n, "Go-side battery", o)
+		e.st.Count("battery_checks", int64(len(grp)))
+		if failed != "" {
+			e.fail(n, "battery-go", failed, "strings with equal code units are distinguishable from Go by %s: %s (Export a=%q b=%q, UTF-8 mapping of the units %q)", failed, desc(ra, rb), x.Export(), y.Export(), strref.ToUTF8(u))
+		}
 	}
 }
 
-// observe runs the representation monitors on one node value.
-func (e *env) observe(n *node, x val) {
-	e.vals = append(e.vals, x)
-	e.st.SetAdd("producer_families", x.family)
-	e.st.SetAdd("value_reprs", goja.VerifRepr(x.v))
-	if ok, why := goja.VerifStringWellFormed(x.v); !ok {
+// observe runs the representation monitors on one node value. u are the code units the value must have (from the
+// model, or read from the value for unmodelled operations); self re-creates / returns the value.
+func (e *env) observe(n *node, family string, self func() goja.String, u S) {
+	me := twin{family, self}
+	e.st.SetAdd("producer_families", family)
+	if ok, why := goja.VerifStringWellFormed(self()); !ok {
 		// not a verdict: the battery against the canonical twin (StringFromUTF16 of the same units) below decides
 		e.st.Inc("normal_form_trigger:" + why)
 	}
-	ts := e.twins(n, x.units)
+	ts := e.twins(n, u)
 	for _, t := range ts {
 		e.st.Inc("twin_family:" + t.family)
-		if got := unitsOf(t.v); !strref.Equal(got, x.units) {
-			e.fail(n, "twin-constructor", t.family, "twin constructor %s was asked for %s and produced %s", t.family, render(x.units), render(got))
-		}
-		if ok, why := goja.VerifStringWellFormed(t.v); !ok {
+		v := t.mk()
+		if ok, why := goja.VerifStringWellFormed(v); !ok {
 			e.st.Inc("normal_form_trigger:" + why)
+		}
+		if got := unitsOf(v); !strref.Equal(got, u) {
+			e.fail(n, "twin-constructor", t.family, "twin constructor %s was asked for %s and produced %s", t.family, render(u), render(got))
 		}
 	}
 	// the value against every twin (both orders alternate), and a few twin x twin pairs
 	for i, t := range ts {
 		if i%2 == 0 {
-			e.battery(n, x.v, t.v, x.family, t.family, x.units)
+			e.battery(n, me, t, u)
 		} else {
-			e.battery(n, t.v, x.v, t.family, x.family, x.units)
+			e.battery(n, t, me, u)
 		}
 	}
 	for k := 0; k < 4 && len(ts) > 1; k++ {
 		i, j := e.rng.Intn(len(ts)), e.rng.Intn(len(ts))
 		if i != j {
-			e.battery(n, ts[i].v, ts[j].v, ts[i].family, ts[j].family, x.units)
+			e.battery(n, ts[i], ts[j], u)
 		}
+	}
+	e.nearMiss(n, family, self, u)
+}
+
+// nearMiss: strings that differ from u in one code unit (or in length by one) must be told apart by every equality
+// observation and ordered by code unit, whatever the representations.
+func (e *env) nearMiss(n *node, family string, self func() goja.String, u S) {
+	mk := func(w S) func() goja.String {
+		switch k := e.rng.Intn(4); {
+		case k == 0 && strref.IsWellFormed(w):
+			g := strref.ToUTF8(w)
+			return func() goja.String { return e.r.ToValue(g).(goja.String) }
+		case k == 1:
+			return fixed(e.str(n, "FCC", e.global(n, "FCC", e.numArr(w))))
+		case k == 2 && strref.IsWellFormed(w):
+			g := strref.ToUTF8(w) + "................."
+			return func() goja.String { return e.r.ToValue(g).(goja.String).Substring(0, len(w)) }
+		}
+		return fixed(goja.StringFromUTF16(w))
+	}
+	for rep := 0; rep < 3; rep++ {
+		w := append(S{}, u...)
+		switch k := e.rng.Intn(6); {
+		case k == 0 || len(w) == 0:
+			w = append(w, core.Pick(e.rng, alASCII))
+		case k == 1:
+			w = w[:len(w)-1]
+		case k == 2:
+			w = append(S{core.Pick(e.rng, alLatin1)}, w...)
+		default:
+			i := []int{0, len(w) - 1, e.rng.Intn(len(w))}[e.rng.Intn(3)]
+			old := w[i]
+			for w[i] == old {
+				switch e.rng.Intn(4) {
+				case 0:
+					w[i] = old ^ 1
+				case 1:
+					w[i] = old ^ 0x80
+				case 2:
+					w[i] = old ^ 0x100
+				default:
+					w[i] = core.Pick(e.rng, alEdge)
+				}
+			}
+		}
+		other := mk(w)
+		c := strref.Compare(u, w)
+		a, b := self(), other()
+		ra, rb := goja.VerifRepr(a), goja.VerifRepr(b)
+		e.st.SetAdd("near_miss_repr_pairs", ra+" x "+rb)
+		k := e.rng.Intn(17)
+		ro := e.global(n, "NEQ", e.r.ToValue(k), a, b).(*goja.Object)
+		names := e.r.Get("NEQNAMES").(*goja.Object)
+		want := []bool{false, false, false, false, false, false, false, false, false, false, false, c < 0, c > 0, c <= 0, c >= 0, c > 0, c < 0}
+		for i := range want {
+			if got := ro.Get(strconv.Itoa(i)).ToBoolean(); got != want[i] {
+				nm := names.Get(strconv.Itoa(i)).String()
+				e.fail(n, "near-miss", nm, "different strings: %s gives %v, expected %v for a=%s [%s, repr %s] and b=%s [repr %s] (code-unit order %d)", nm, got, want[i], render(u), family, ra, render(w), rb, c)
+			}
+		}
+		a, b = self(), other()
+		var bad string
+		o := gj.Call(func() (goja.Value, error) {
+			chk := func(name string, ok bool) {
+				if !ok && bad == "" {
+					bad = name
+				}
+			}
+			sign := func(x int) int {
+				switch {
+				case x < 0:
+					return -1
+				case x > 0:
+					return 1
+				}
+				return 0
+			}
+			if k%2 == 0 {
+				chk("a.CompareTo(b)", sign(a.CompareTo(b)) == c)
+				chk("b.CompareTo(a)", sign(b.CompareTo(a)) == -c)
+			}
+			chk("!a.SameAs(b)", !a.SameAs(b))
+			chk("!b.SameAs(a)", !b.SameAs(a))
+			chk("!a.StrictEquals(b)", !a.StrictEquals(b))
+			chk("!b.StrictEquals(a)", !b.StrictEquals(a))
+			chk("!a.Equals(b)", !a.Equals(b))
+			chk("!b.Equals(a)", !b.Equals(a))
+			chk("a.CompareTo(b)", sign(a.CompareTo(b)) == c)
+			chk("b.CompareTo(a)", sign(b.CompareTo(a)) == -c)
+			return nil, nil
+		})
+		e.judge(n, "near-miss Go battery", o)
+		if bad != "" {
+			e.fail(n, "near-miss-go", bad, "different strings: %s fails for a=%s [%s, repr %s] and b=%s [repr %s] (code-unit order %d)", bad, render(u), family, ra, render(w), rb, c)
+		}
+		e.st.Inc("near_miss_pairs")
 	}
 }
 
@@ -655,15 +847,21 @@ func (e *env) observe(n *node, x val) {
 func (e *env) relations(n *node, spec *opSpec, in, out val) {
 	expr := spec.js(n)
 	for _, t := range e.twins(n, in.units) {
-		r := e.str(n, expr, e.snippet(n, expr, t.v))
+		tv := t.mk()
+		trepr := goja.VerifRepr(tv)
+		r := e.str(n, expr, e.snippet(n, expr, tv))
 		e.st.Inc("unmodelled_relation:representation-independence:" + spec.family)
 		if got := unitsOf(r); !strref.Equal(got, out.units) {
 			e.fail(n, "representation-dependence", spec.name, "%s of %s gives %s for the operand as evaluated [repr %s] but %s for its twin built by %s [repr %s]",
-				expr, render(in.units), render(out.units), goja.VerifRepr(in.v), render(got), t.family, goja.VerifRepr(t.v))
+				expr, render(in.units), render(out.units), goja.VerifRepr(in.v), render(got), t.family, trepr)
 		}
 	}
 	f := func(u S) S {
 		return unitsOf(e.str(n, expr, e.snippet(n, expr, goja.StringFromUTF16(u))))
+	}
+	if knownSurrogateLoss && !e.noExclude {
+		e.st.Inc("excluded:surrogate-preservation-of-case-mapping-and-normalize")
+		return
 	}
 	// (iii) the operand itself, cut at its unpaired surrogates: f(x) = f(seg0)+S0+f(seg1)+... (an unpaired surrogate is
 	// neither cased nor case-ignorable, is a starter and takes part in no composition, so the segments are independent)
@@ -748,8 +946,9 @@ type outcome struct {
 }
 
 // execute evaluates one tree on a fresh runtime. salt seeds the twin/battery choices.
-func execute(root *node, st *core.Stats, salt uint64) (out outcome) {
+func execute(root *node, st *core.Stats, salt uint64, noExclude bool) (out outcome) {
 	e := newEnv(st, core.NewRng(salt))
+	e.noExclude = noExclude || os.Getenv("VERIF_C06_NOEXCLUDE") != "" // the env switch is a development aid for trials against patched trees
 	defer func() {
 		out.pairs, out.nontrivial = e.pairs, e.nontrivial
 		if p := recover(); p != nil {
